@@ -153,6 +153,49 @@ func ttlCase(w *W, idx int) {
 			r.judged = returned < old-int64(150*time.Millisecond)
 		}
 	}
+	// Set and Extend in ONE transaction on a row that already has a committed deadline: now+2h+1h
+	for i := 0; i < 5; i++ {
+		r := insert("set-then-extend", time.Hour)
+		c.Query(func(txn *column.Txn) error {
+			return txn.QueryAt(r.off, func(row column.Row) error {
+				until := row.SetTTL(2 * time.Hour)
+				txn.TTL().Extend(time.Hour)
+				r.deadline = until.UnixNano() + int64(time.Hour)
+				return nil
+			})
+		})
+		r.mustLive = true
+	}
+	// concurrent extenders: every committed extension must be in the final deadline exactly once
+	var extended []*ttlRow
+	for i := 0; i < 4; i++ {
+		r := insert("concurrently-extended", time.Hour)
+		r.mustLive = true
+		extended = append(extended, r)
+	}
+	var extWG sync.WaitGroup
+	var extSum [4]int64
+	for gi := 0; gi < 4; gi++ {
+		gi := gi
+		extWG.Add(1)
+		go func() {
+			defer extWG.Done()
+			rr := rngFor(w.Seed, 72, idx, gi)
+			for n := 0; n < 150; n++ {
+				ri := rr.Intn(len(extended))
+				d := time.Duration(1+rr.Intn(1000)) * time.Microsecond
+				c.Query(func(txn *column.Txn) error {
+					return txn.QueryAt(extended[ri].off, func(column.Row) error { txn.TTL().Extend(d); return nil })
+				})
+				atomic.AddInt64(&extSum[ri], int64(d))
+			}
+		}()
+	}
+	extWG.Wait()
+	for i, r := range extended {
+		r.deadline += atomic.LoadInt64(&extSum[i])
+	}
+	w.Stat("concurrent_extensions", 600)
 	// the stored deadline must be exactly what the API reported
 	for _, r := range rows {
 		r := r
